@@ -80,12 +80,42 @@ class ModuleInfo:
         self.path = path
         self.relpath = relpath
         self.source = source
-        self.tree = inline_single_use_temporaries(ast.parse(source, filename=path))
+        self.tree = inline_single_use_temporaries(canonical_spellings(ast.parse(source, filename=path)))
         self.imports = {}       # local name -> ('module', dotted) | ('object', dotted) | ('external', dotted)
         self.functions = {}     # qualname -> FunctionInfo (all, incl. nested & methods)
         self.classes = {}       # qualname -> ClassInfo
         self.constants = {}     # module level simple name -> value expr (last assignment)
         self.toplevel_names = set()
+
+
+def canonical_spellings(tree):
+    """Two spellings that mean the same are given one form before anything is analysed: `x = x op e` becomes `x op= e` (plain names and attributes, arithmetic and
+    bit operators), and a symmetric comparison with the constant on the left (`None is x`, `0 == n`) gets the constant on the right."""
+    class T(ast.NodeTransformer):
+        def visit_Assign(self, node):
+            self.generic_visit(node)
+            if len(node.targets) == 1 and isinstance(node.targets[0], (ast.Name, ast.Attribute)) and isinstance(node.value, ast.BinOp) \
+                    and isinstance(node.value.op, (ast.Add, ast.Sub, ast.BitOr, ast.BitAnd, ast.Mult)) \
+                    and ast.dump(_as_load(node.value.left)) == ast.dump(_as_load(node.targets[0])):
+                return ast.copy_location(ast.AugAssign(target=node.targets[0], op=node.value.op, value=node.value.right), node)
+            return node
+
+        def visit_Compare(self, node):
+            self.generic_visit(node)
+            if len(node.ops) == 1 and isinstance(node.ops[0], (ast.Eq, ast.NotEq, ast.Is, ast.IsNot)) and isinstance(node.left, ast.Constant) \
+                    and not isinstance(node.comparators[0], ast.Constant):
+                node.left, node.comparators = node.comparators[0], [node.left]
+            return node
+    return T().visit(tree)
+
+
+def _as_load(expr):
+    import copy
+    e = copy.deepcopy(expr)
+    for x in ast.walk(e):
+        if hasattr(x, "ctx"):
+            x.ctx = ast.Load()
+    return e
 
 
 def inline_single_use_temporaries(tree):
